@@ -394,6 +394,18 @@ def whole_absorptions(F, ck, trs):
                     bad += ob.is_partial_iter(fr[3])
             for a in t.ev.node.get('a', []):
                 bad += _partial_in(a)
+                # a local that was resized in place before being absorbed (an explicit truncate of the prover's own polynomial is not meant)
+                rl = a
+                while isinstance(rl, dict) and rl.get('k') in ('Ref', 'Un', 'Cast', 'Field'):
+                    rl = rl['e']
+                if isinstance(rl, dict) and rl.get('k') == 'Local':
+                    for y in walk(t.fn.body):
+                        if y.get('k') == 'MCall' and y.get('n') in ('resize', 'resize_with'):      # 'pad to length n' also cuts a longer message down to n
+                            ry = y['r']
+                            while isinstance(ry, dict) and ry.get('k') in ('Ref', 'Un', 'Field'):
+                                ry = ry['e']
+                            if isinstance(ry, dict) and ry.get('k') == 'Local' and ry.get('id') == rl.get('id'):
+                                bad.append(y['n'] + '()')
             key = 'whole:%s.%s:%s:%s' % (proto, side, t.fn.name, t.method)
             if key in seen and not bad:
                 continue
